@@ -297,7 +297,7 @@ struct TokCfg {
 
 fn instruction_shard(args: &Args, shard: u64, m: &mut Monitor) {
     let mut rng = Rng::derive(args.seed, shard, 2929);
-    let iters = args.scale(900, 4_000);
+    let iters = args.scale(900, 2_400);
     let mut w = World::bootstrap_store();
     w.bootstrap_oracle();
     let mut toks = vec![];
@@ -469,7 +469,7 @@ pub fn run(args: &Args) -> Option<i32> {
     mon.assume("decimal multipliers are limited to 0..=20 (Decimal::MAX_DECIMAL_MULTIPLIER); larger ones cannot be produced by Decimal::try_from_price");
     mon.assume("part 2 feeds are written only through the real update instruction (so bid ≤ price ≤ ask); reference = the feed's price converted with Decimal::try_from_price like the program does");
     let direct_shards = args.scale(32, 128);
-    let direct_cases = args.scale(150_000, 2_000_000);
+    let direct_cases = args.scale(150_000, 400_000);
     let ix_shards = args.scale(32, 128);
     let quiet = hostsvm::QuietStdout::new();
     run_shards(&mut mon, args.threads, direct_shards + ix_shards, |shard, m| {
